@@ -11,14 +11,18 @@ from harness.drivers import pipes
 INVS = ["ReadableIffData", "NeverStuck"]
 
 
-def consts(o, e, ops, fix):
-    return {"InitOut": o, "InitErr": e, "MaxOps": ops, "FixLocks": fix, "defaultInitValue": 0}
+def consts(o, e, ops, fix, eof=False, cwc=False):
+    return {"InitOut": o, "InitErr": e, "InitEof": eof, "MaxOps": ops, "FixLocks": fix, "ClearWhenClosed": cwc,
+            "defaultInitValue": 0}
 
 
 def run(c):
     inits = [(1, 0), (1, 1)] if c.quick else [(0, 0), (1, 0), (0, 1), (1, 1), (2, 0)]
     for (o, e) in inits:
         c.mc_holds("OrPipe", cfg_text(constants=consts(o, e, 2, True), invariants=INVS), name="locked init=%d,%d" % (o, e))
+    c.mc_holds("OrPipe", cfg_text(constants=consts(1, 1, 2, True, eof=True), invariants=INVS), name="EOF received before fileno(), both streams hold data")
+    c.mc("OrPipe", cfg_text(constants=consts(1, 1, 2, True, eof=True, cwc=True), invariants=INVS),
+         expect="ReadableIffData", name="sensitivity: read() clears the event although the buffer is closed")
     if not c.quick:
         c.mc_holds("OrPipe", cfg_text(constants=consts(1, 1, 3, True), invariants=INVS), name="locked 3 ops", timeout=1500)
     if c.quick:
@@ -38,6 +42,9 @@ def run(c):
         {"init": (1, 0), "T": ["f2", "f1"], "R1": ["r1", "r1"], "R2": ["r2"]},
         {"init": (0, 0), "T": ["f1", "eof"], "R1": ["r1"], "R2": ["r2"]},
         {"init": (2, 0), "T": ["f2", "f2"], "R1": ["r1"], "R2": ["r2"]},
+        # EOF arrived before fileno() was ever called; both streams still hold data
+        {"init": (1, 1, 1), "T": [], "R1": ["r1"], "R2": ["r2"]},
+        {"init": (2, 0, 1), "T": [], "R1": ["r1", "r1"], "R2": ["r2"]},
     ]
     batch, meta = [], []
     progs = fixed + pipes.c24_programs(rnd, 4 if c.quick else 24)
